@@ -48,4 +48,44 @@ theorem C15_source_merged_result (r1 r2 : Option TStatus) :
     | none => cases a <;> rfl
     | some b => cases a <;> cases b <;> rfl
 
+/-! The model functions above are built over literal TABLES (`Gen.testSuiteFalsy`, `Gen.testSuiteDerived`,
+    `Gen.mergedRules`) that are re-extracted from the same source, so a change of a literal moves both
+    sides.  The following versions pin the translated bodies to explicit readings of the rules. -/
+
+/-- `TestSuite.__bool__`: an explicit status decides (anything but `failed`/`error` is true); otherwise
+    every test must be neither `failed` nor `error`. -/
+theorem C15_source_test_suite_bool_explicit (s : TSuite) :
+    Gen.c15TestSuiteBoolSrc.run noExt [suiteVal s] = .ok (.bool (boolSpec s)) := by
+  rw [C15_source_test_suite_bool]
+  obtain ⟨tests, status⟩ := s
+  cases status with
+  | some st => cases st <;> rfl
+  | none =>
+    simp only [TSuite.bool, boolSpec]
+    congr 2
+    apply List.all_congr rfl
+    intro t
+    cases t <;> rfl
+
+/-- `TestSuite.status`: the explicit status, else `passed` / `failed` according to the truth value. -/
+theorem C15_source_test_suite_status_explicit (s : TSuite) :
+    Gen.c15TestSuiteStatusSrc.run noExt [suiteValB s (boolSpec s)] = .ok (tsVal (statusSpec s)) := by
+  obtain ⟨tests, status⟩ := s
+  cases status with
+  | some st => cases st <;> rfl
+  | none =>
+    simp only [statusSpec]
+    cases boolSpec ⟨tests, none⟩ <;> rfl
+
+/-- `_merged_result`: `failed` beats `error` beats `skipped`; otherwise `None`. -/
+theorem C15_source_merged_result_explicit (r1 r2 : Option TStatus) :
+    Gen.c15MergedResultSrc.run noExt [optTsVal r1, optTsVal r2] = .ok (optTsVal (mergedSpec r1 r2)) := by
+  cases r1 with
+  | none => cases r2 with
+    | none => rfl
+    | some b => cases b <;> rfl
+  | some a => cases r2 with
+    | none => cases a <;> rfl
+    | some b => cases a <;> cases b <;> rfl
+
 end Fc
